@@ -28,3 +28,15 @@ def run(ctx, pid, module="MCNode", quick_edges=12000, walks=(100, 5000), depth=4
     ctx.replay(behs, pre, obs, ordered=ordered, label="edges")
     w = ctx.gen_walks(module, "%s_walk.cfg" % pid, num=walks[0] if q else walks[1], depth=depth)
     ctx.replay(w, pre, obs, ordered=ordered, label="walks")
+    node_id_variant(ctx, module, pid, pre, obs, ordered, walks, depth, gen_timeout)
+
+
+def node_id_variant(ctx, module, pid, pre, obs, ordered, walks, depth, gen_timeout, old="NodeId = 5", new="NodeId = 127"):
+    """the same model with the largest node id (identifiers 700h+id, 580h+id, 600h+id, NMT addressing): walks in the quick
+    tier, walks and the whole edge cover in the thorough tier"""
+    q = ctx.tier == "quick"
+    w = ctx.gen_walks(module, common.cfg_variant("%s_walk.cfg" % pid, [(old, new)], "n127"), num=walks[0] if q else walks[1], depth=depth)
+    ctx.replay(w, pre, obs, ordered=ordered, label="walks_node127")
+    if not q:
+        behs = ctx.gen_edges(module, common.cfg_variant("%s_gen.cfg" % pid, [(old, new)], "n127"), timeout=gen_timeout)
+        ctx.replay(behs, pre, obs, ordered=ordered, label="edges_node127")
